@@ -33,9 +33,9 @@ Qed.
 
 (* ------------------------------------------------------------------ the table *)
 
-Definition nodup_keys (t : table) : Prop := NoDup (map fst t).
+Definition nodup_keys (t : lim_table) : Prop := NoDup (map fst t).
 
-Lemma lookup_notin k t : ~ In k (map fst t) -> lookup k t = None.
+Lemma lookup_notin k t : ~ In k (map fst t) -> lim_lookup k t = None.
 Proof.
   induction t as [|[k' b] t IH]; cbn; intros H; auto.
   destruct (addr_eqb k k') eqn:E.
@@ -57,47 +57,47 @@ Proof.
   constructor; auto. intros X. apply in_keys_filter in X. contradiction.
 Qed.
 
-Lemma notin_remove k t : ~ In k (map fst (remove k t)).
+Lemma notin_remove k t : ~ In k (map fst (lim_remove k t)).
 Proof.
-  unfold remove. induction t as [|[k' b] t IH]; cbn; auto.
+  unfold lim_remove. induction t as [|[k' b] t IH]; cbn; auto.
   destruct (addr_eqb k k') eqn:E; cbn; auto.
   intros [X|X]; auto. subst. rewrite addr_eqb_refl in E. discriminate.
 Qed.
 
-Lemma lookup_remove_neq k k' t : k <> k' -> lookup k' (remove k t) = lookup k' t.
+Lemma lookup_remove_neq k k' t : k <> k' -> lim_lookup k' (lim_remove k t) = lim_lookup k' t.
 Proof.
-  intros N. unfold remove. induction t as [|[k2 b] t IH]; cbn; auto.
+  intros N. unfold lim_remove. induction t as [|[k2 b] t IH]; cbn; auto.
   destruct (addr_eqb k k2) eqn:E; cbn.
   - apply addr_eqb_eq in E. subst k2.
     assert (addr_eqb k' k = false) as -> by (apply addr_eqb_neq; congruence). exact IH.
   - destruct (addr_eqb k' k2); auto.
 Qed.
 
-Lemma lookup_upsert_eq k b t : lookup k (upsert k b t) = Some b.
-Proof. unfold upsert. cbn. now rewrite addr_eqb_refl. Qed.
+Lemma lookup_upsert_eq k b t : lim_lookup k (lim_upsert k b t) = Some b.
+Proof. unfold lim_upsert. cbn. now rewrite addr_eqb_refl. Qed.
 
-Lemma lookup_upsert_neq k k' b t : k <> k' -> lookup k' (upsert k b t) = lookup k' t.
+Lemma lookup_upsert_neq k k' b t : k <> k' -> lim_lookup k' (lim_upsert k b t) = lim_lookup k' t.
 Proof.
-  intros N. unfold upsert. cbn.
+  intros N. unfold lim_upsert. cbn.
   assert (addr_eqb k' k = false) as -> by (apply addr_eqb_neq; congruence).
   now apply lookup_remove_neq.
 Qed.
 
-Lemma nodup_upsert k b t : nodup_keys t -> nodup_keys (upsert k b t).
+Lemma nodup_upsert k b t : nodup_keys t -> nodup_keys (lim_upsert k b t).
 Proof.
-  intros H. unfold upsert, nodup_keys. cbn. constructor.
+  intros H. unfold lim_upsert, nodup_keys. cbn. constructor.
   - apply notin_remove.
   - apply (nodup_filter _ _ H).
 Qed.
 
 Definition gc_bucket (now : Z) (s : option bucket) : option bucket :=
-  match s with Some b => if expired now b then None else Some b | None => None end.
+  match s with Some b => if lim_expired now b then None else Some b | None => None end.
 
-Lemma lookup_gc k now t : nodup_keys t -> lookup k (gc now t) = gc_bucket now (lookup k t).
+Lemma lookup_gc k now t : nodup_keys t -> lim_lookup k (lim_gc now t) = gc_bucket now (lim_lookup k t).
 Proof.
-  unfold gc, nodup_keys. induction t as [|[k' b] t IH]; cbn; intros H; auto.
+  unfold lim_gc, nodup_keys. induction t as [|[k' b] t IH]; cbn; intros H; auto.
   inversion H; subst. cbn in *.
-  destruct (expired now b) eqn:X; cbn.
+  destruct (lim_expired now b) eqn:X; cbn.
   - destruct (addr_eqb k k') eqn:E.
     + apply addr_eqb_eq in E. subst k'. cbn. rewrite X.
       apply lookup_notin. intros Y. apply in_keys_filter in Y. contradiction.
@@ -108,18 +108,18 @@ Qed.
 (* ------------------------------------------------------------------ the view of one key *)
 
 (* what one event does to the bucket of key k (None = no entry) *)
-Definition kstep (o : opts) (k : addr) (s : option bucket) (e : ev) : option bucket * option bool :=
+Definition kstep (o : opts) (k : addr) (s : option bucket) (e : lev) : option bucket * option bool :=
   match e with
   | EvAllow now a n =>
-      if addr_eqb (mask o a) k then
+      if addr_eqb (mask_addr o a) k then
         let r := allow_bucket (o_limit o) (o_burst o)
-                   (match s with Some b => b | None => fresh (o_burst o) now end) now n in
+                   (match s with Some b => b | None => lim_fresh (o_burst o) now end) now n in
         (Some (snd r), Some (fst r))
       else (s, None)
   | EvGc now => (gc_bucket now s, None)
   end.
 
-Lemma step_nodup o t e : nodup_keys t -> nodup_keys (fst (step o t e)).
+Lemma step_nodup o t e : nodup_keys t -> nodup_keys (fst (lim_step o t e)).
 Proof.
   intros H. destruct e; cbn.
   - now apply nodup_upsert.
@@ -127,17 +127,17 @@ Proof.
 Qed.
 
 Lemma step_lookup o k t e : nodup_keys t ->
-  lookup k (fst (step o t e)) = fst (kstep o k (lookup k t) e).
+  lim_lookup k (fst (lim_step o t e)) = fst (kstep o k (lim_lookup k t) e).
 Proof.
-  intros H. destruct e as [now a n|now]; cbn [step kstep fst snd].
-  - destruct (addr_eqb (mask o a) k) eqn:E; cbn [fst snd].
+  intros H. destruct e as [now a n|now]; cbn [lim_step kstep fst snd].
+  - destruct (addr_eqb (mask_addr o a) k) eqn:E; cbn [fst snd].
     + apply addr_eqb_eq in E. subst k. rewrite lookup_upsert_eq. reflexivity.
     + apply addr_eqb_neq in E. now rewrite lookup_upsert_neq.
   - now apply lookup_gc.
 Qed.
 
 Lemma step_decision o k t e : touches o k e = true ->
-  snd (step o t e) = snd (kstep o k (lookup k t) e).
+  snd (lim_step o t e) = snd (kstep o k (lim_lookup k t) e).
 Proof.
   destruct e as [now a n|now]; cbn; intros H; auto.
   rewrite H. apply addr_eqb_eq in H. subst k. reflexivity.
@@ -147,7 +147,7 @@ Lemma kstep_untouched o k s e : touches o k e = false -> kstep o k s e = (s, Non
 Proof. destruct e; cbn; intros H; [now rewrite H | discriminate]. Qed.
 
 (* decisions for key k computed on its own bucket only *)
-Fixpoint kdec (o : opts) (k : addr) (s : option bucket) (h : list ev) : list bool :=
+Fixpoint kdec (o : opts) (k : addr) (s : option bucket) (h : list lev) : list bool :=
   match h with
   | [] => []
   | e :: h' =>
@@ -158,16 +158,16 @@ Fixpoint kdec (o : opts) (k : addr) (s : option bucket) (h : list ev) : list boo
   end.
 
 Lemma decisions_for_kdec o k h : forall t, nodup_keys t ->
-  decisions_for o k h (decisions o t h) = kdec o k (lookup k t) h.
+  lim_decisions_for o k h (lim_decisions o t h) = kdec o k (lim_lookup k t) h.
 Proof.
-  induction h as [|e h IH]; intros t H; cbn [decisions decisions_for kdec]; auto.
+  induction h as [|e h IH]; intros t H; cbn [lim_decisions lim_decisions_for kdec]; auto.
   rewrite (IH _ (step_nodup o t e H)), (step_lookup o k t e H).
   destruct e as [now a n|now].
-  - destruct (addr_eqb (mask o a) k) eqn:E.
+  - destruct (addr_eqb (mask_addr o a) k) eqn:E.
     + rewrite (step_decision o k t (EvAllow now a n)) by exact E.
       cbn [kstep]. rewrite E. cbn [fst snd]. reflexivity.
     + rewrite (kstep_untouched o k _ (EvAllow now a n)) by exact E. cbn [fst snd].
-      cbn [step snd]. reflexivity.
+      cbn [lim_step snd]. reflexivity.
   - reflexivity.
 Qed.
 
@@ -185,15 +185,15 @@ Proof. constructor. Qed.
 
 (* no interference: the decisions taken for key k depend only on k's own arrivals (and collector runs) *)
 Lemma isolation o k h :
-  decisions_for o k h (decisions o [] h) =
-  decisions_for o k (filter (touches o k) h) (decisions o [] (filter (touches o k) h)).
+  lim_decisions_for o k h (lim_decisions o [] h) =
+  lim_decisions_for o k (filter (touches o k) h) (lim_decisions o [] (filter (touches o k) h)).
 Proof.
   rewrite !decisions_for_kdec by apply nodup_nil. apply kdec_filter.
 Qed.
 
 (* the bucket of key k after a history depends only on k's own arrivals *)
 Lemma final_lookup o k h : forall t, nodup_keys t ->
-  lookup k (final o t h) = fold_left (fun s e => fst (kstep o k s e)) h (lookup k t).
+  lim_lookup k (lim_final o t h) = fold_left (fun s e => fst (kstep o k s e)) h (lim_lookup k t).
 Proof.
   induction h as [|e h IH]; intros t H; cbn; auto.
   rewrite (IH _ (step_nodup o t e H)), (step_lookup o k t e H). reflexivity.
@@ -202,29 +202,29 @@ Qed.
 (* ------------------------------------------------------------------ the window bound *)
 
 (* admitted cost of key k in the window, computed on its own bucket *)
-Definition gainw (o : opts) (k : addr) (t0 t1 : Z) (s : option bucket) (e : ev) : Z :=
+Definition gainw (o : opts) (k : addr) (t0 t1 : Z) (s : option bucket) (e : lev) : Z :=
   match e, snd (kstep o k s e) with
   | EvAllow t a n, Some true => if (t0 <=? t) && (t <=? t1) then n else 0
   | _, _ => 0
   end.
 
-Fixpoint kadm (o : opts) (k : addr) (t0 t1 : Z) (s : option bucket) (h : list ev) : Z :=
+Fixpoint kadm (o : opts) (k : addr) (t0 t1 : Z) (s : option bucket) (h : list lev) : Z :=
   match h with
   | [] => 0
   | e :: h' => gainw o k t0 t1 s e + kadm o k t0 t1 (fst (kstep o k s e)) h'
   end.
 
 Lemma admitted_kadm o k t0 t1 h : forall t, nodup_keys t ->
-  admitted o k t0 t1 h (decisions o t h) = kadm o k t0 t1 (lookup k t) h.
+  lim_admitted o k t0 t1 h (lim_decisions o t h) = kadm o k t0 t1 (lim_lookup k t) h.
 Proof.
-  induction h as [|e h IH]; intros t H; cbn [decisions admitted kadm]; auto.
+  induction h as [|e h IH]; intros t H; cbn [lim_decisions lim_admitted kadm]; auto.
   rewrite (IH _ (step_nodup o t e H)), (step_lookup o k t e H). f_equal.
   unfold gainw.
   destruct e as [now a n|now]; [|reflexivity].
-  destruct (addr_eqb (mask o a) k) eqn:E.
+  destruct (addr_eqb (mask_addr o a) k) eqn:E.
   - rewrite (step_decision o k t (EvAllow now a n)) by exact E.
     destruct (snd _) as [[|]|]; cbn [andb]; auto.
-  - rewrite (kstep_untouched o k _ (EvAllow now a n)) by exact E. cbn [snd step andb].
+  - rewrite (kstep_untouched o k _ (EvAllow now a n)) by exact E. cbn [snd lim_step andb].
     destruct (fst _); reflexivity.
 Qed.
 
@@ -237,11 +237,11 @@ Section Bound.
   Hypothesis Hburst : 0 <= burst.
 
   (* tokens (scaled) the bucket would hold at time tau >= last *)
-  Definition capb (b : bucket) (tau : Z) : Z := Z.min (burst * SCALE) (tok b + rate * (tau - last b)).
+  Definition capb (b : bucket) (tau : Z) : Z := Z.min (burst * SCALE) (b_tok b + rate * (tau - b_last b)).
   Definition cap (s : option bucket) (tau : Z) : Z :=
     match s with Some b => capb b tau | None => burst * SCALE end.
 
-  Definition wfb (b : bucket) (tau : Z) : Prop := last b <= seen b /\ seen b <= tau /\ - rate < tok b.
+  Definition wfb (b : bucket) (tau : Z) : Prop := b_last b <= b_seen b /\ b_seen b <= tau /\ - rate < b_tok b.
   Definition wf (s : option bucket) (tau : Z) : Prop :=
     match s with Some b => wfb b tau | None => True end.
 
@@ -268,37 +268,37 @@ Section Bound.
   Proof.
     destruct s as [b|]; cbn.
     - unfold wfb, capb. intros (A & B & C).
-      assert (0 <= rate * (tau - last b)) by (apply Z.mul_nonneg_nonneg; lia).
+      assert (0 <= rate * (tau - b_last b)) by (apply Z.mul_nonneg_nonneg; lia).
       unfold SCALE. lia.
     - unfold SCALE. lia.
   Qed.
 
   (* one call of AllowN at time now >= last *)
   Lemma allow_capb b now n :
-    last b <= seen b -> seen b <= now -> - rate < tok b ->
+    b_last b <= b_seen b -> b_seen b <= now -> - rate < b_tok b ->
     let r := allow_bucket rate burst b now n in
     wfb (snd r) now /\
     (if fst r then n * SCALE else 0) + capb (snd r) now <= capb b now.
   Proof.
-    intros A B C. unfold allow_bucket, margin, advance.
-    assert (now <? last b = false) as -> by lia.
+    intros A B C. unfold allow_bucket, lim_margin, lim_advance.
+    assert (now <? b_last b = false) as -> by lia.
     fold (capb b now).
     destruct ((n <=? burst) && (0 <? capb b now - n * SCALE + rate)) eqn:E; cbn [fst snd].
     - split.
       + unfold wfb; cbn. lia.
-      + unfold capb at 1. cbn [tok last]. lia.
+      + unfold capb at 1. cbn [b_tok b_last]. lia.
     - split.
       + unfold wfb; cbn. lia.
-      + unfold capb. cbn [tok last]. lia.
+      + unfold capb. cbn [b_tok b_last]. lia.
   Qed.
 
-  Definition gain (s : option bucket) (e : ev) : Z :=
+  Definition gain (s : option bucket) (e : lev) : Z :=
     match e, snd (kstep o k s e) with
     | EvAllow _ _ n, Some true => n
     | _, _ => 0
     end.
 
-  Definition is_gc (e : ev) : bool := match e with EvGc _ => true | _ => false end.
+  Definition is_gc (e : lev) : bool := match e with EvGc _ => true | _ => false end.
 
   (* one event, seen from key k *)
   Lemma kstep_cap s e tau :
@@ -308,7 +308,7 @@ Section Bound.
     gain s e * SCALE + cap (fst (kstep o k s e)) (ev_time e) <= cap s tau + rate * (ev_time e - tau).
   Proof.
     intros W T G. destruct e as [now a n|now]; unfold gain; cbn [kstep ev_time] in *.
-    - destruct (addr_eqb (mask o a) k) eqn:E; cbn [fst snd].
+    - destruct (addr_eqb (mask_addr o a) k) eqn:E; cbn [fst snd].
       + destruct s as [b|].
         * cbn in W. destruct W as (A & B & C).
           pose proof (allow_capb b now n A ltac:(lia) C) as [W1 W2]. cbn zeta in W1, W2.
@@ -316,22 +316,22 @@ Section Bound.
           split; [exact W1|].
           pose proof (cap_mono (Some b) tau now T) as M. cbn [cap] in *.
           destruct (fst (allow_bucket rate burst b now n)); lia.
-        * pose proof (allow_capb (fresh burst now) now n) as X. cbn [fresh last seen tok] in X.
+        * pose proof (allow_capb (lim_fresh burst now) now n) as X. cbn [lim_fresh b_last b_seen b_tok] in X.
           specialize (X ltac:(lia) ltac:(lia) ltac:(unfold SCALE; lia)). destruct X as [W1 W2].
           cbn zeta in W1, W2. fold rate burst.
           split; [exact W1|].
-          assert (capb (fresh burst now) now <= burst * SCALE) by (unfold capb; lia).
+          assert (capb (lim_fresh burst now) now <= burst * SCALE) by (unfold capb; lia).
           assert (0 <= rate * (now - tau)) by (apply Z.mul_nonneg_nonneg; lia).
-          cbn [cap]. destruct (fst (allow_bucket rate burst (fresh burst now) now n)); lia.
+          cbn [cap]. destruct (fst (allow_bucket rate burst (lim_fresh burst now) now n)); lia.
       + split; [eapply wf_mono; eauto|].
         pose proof (cap_mono s tau now T). lia.
     - cbn [fst snd]. specialize (G eq_refl).
       destruct s as [b|]; cbn [gc_bucket].
-      + destruct (expired now b) eqn:X.
-        * split; [exact I|]. cbn [cap]. unfold expired, entry_ttl in X.
+      + destruct (lim_expired now b) eqn:X.
+        * split; [exact I|]. cbn [cap]. unfold lim_expired, entry_ttl in X.
           cbn in W. destruct W as (A & B & C).
           unfold capb.
-          assert (rate * (60 * SCALE + 1) <= rate * (tau - last b) + rate * (now - tau)).
+          assert (rate * (60 * SCALE + 1) <= rate * (tau - b_last b) + rate * (now - tau)).
           { rewrite <- Z.mul_add_distr_l. apply Z.mul_le_mono_nonneg_l; lia. }
           assert (0 <= rate * (now - tau)) by (apply Z.mul_nonneg_nonneg; lia).
           unfold SCALE in *. lia.
@@ -357,7 +357,7 @@ Section Bound.
     assert ((t0 <=? now) && (now <=? t1) = false) as -> by lia. reflexivity.
   Qed.
 
-  Definition gc_side (h : list ev) : Prop := has_gc h = true -> burst <= 60 * rate.
+  Definition gc_side (h : list lev) : Prop := has_gc h = true -> burst <= 60 * rate.
 
   Lemma gc_side_cons e h : gc_side (e :: h) -> (is_gc e = true -> burst <= 60 * rate) /\ gc_side h.
   Proof.
@@ -367,7 +367,7 @@ Section Bound.
   Qed.
 
   (* events after the window contribute nothing *)
-  Lemma kadm_after h : forall s tau, sorted_from tau h = true -> t1 < tau -> kadm o k t0 t1 s h = 0.
+  Lemma kadm_after h : forall s tau, lim_sorted_from tau h = true -> t1 < tau -> kadm o k t0 t1 s h = 0.
   Proof.
     induction h as [|e h IH]; intros s tau S T; cbn [kadm]; auto.
     cbn in S. apply andb_true_iff in S. destruct S as [S1 S2].
@@ -377,7 +377,7 @@ Section Bound.
 
   (* inside the window *)
   Lemma kadm_window h : forall s tau,
-    sorted_from tau h = true -> t0 <= tau -> tau <= t1 -> wf s tau -> gc_side h ->
+    lim_sorted_from tau h = true -> t0 <= tau -> tau <= t1 -> wf s tau -> gc_side h ->
     kadm o k t0 t1 s h * SCALE <= cap s tau + rate * (t1 - tau) + (rate - 1).
   Proof.
     induction h as [|e h IH]; intros s tau S T0 T1 W G.
@@ -401,7 +401,7 @@ Section Bound.
 
   (* the whole history: events before the window only move the state *)
   Lemma kadm_bound h : forall s tau,
-    sorted_from tau h = true -> wf s tau -> gc_side h -> t0 <= t1 ->
+    lim_sorted_from tau h = true -> wf s tau -> gc_side h -> t0 <= t1 ->
     kadm o k t0 t1 s h * SCALE <= burst * SCALE + rate * (t1 - t0) + (rate - 1).
   Proof.
     induction h as [|e h IH]; intros s tau S W G T01.
@@ -421,7 +421,7 @@ Section Bound.
         * rewrite (kadm_after (e :: h) s (ev_time e)); [| |exact L1].
           -- assert (0 <= rate * (t1 - t0)) by (apply Z.mul_nonneg_nonneg; lia). unfold SCALE. lia.
           -- cbn. rewrite S2. rewrite Z.leb_refl. reflexivity.
-        * assert (sorted_from (ev_time e) (e :: h) = true) as S3.
+        * assert (lim_sorted_from (ev_time e) (e :: h) = true) as S3.
           { cbn. rewrite S2. rewrite Z.leb_refl. reflexivity. }
           pose proof (kadm_window (e :: h) s (ev_time e) S3 L L1 (wf_mono _ _ _ W T) G) as B.
           pose proof (cap_le_burst s (ev_time e)).
@@ -430,21 +430,21 @@ Section Bound.
   Qed.
 End Bound.
 
-Lemma sorted_sorted_from h : sorted h = true ->
-  match h with [] => True | e :: _ => sorted_from (ev_time e) h = true end.
+Lemma sorted_sorted_from h : lim_sorted h = true ->
+  match h with [] => True | e :: _ => lim_sorted_from (ev_time e) h = true end.
 Proof.
   destruct h as [|e h]; cbn; auto. intros H. rewrite H, Z.leb_refl. reflexivity.
 Qed.
 
 (* C15 window bound, for histories from the empty table *)
 Lemma bound_general o k t0 t1 h :
-  0 < o_limit o -> 0 <= o_burst o -> sorted h = true ->
+  0 < o_limit o -> 0 <= o_burst o -> lim_sorted h = true ->
   (has_gc h = true -> o_burst o <= 60 * o_limit o) -> t0 <= t1 ->
-  admitted o k t0 t1 h (decisions o [] h) * SCALE
+  lim_admitted o k t0 t1 h (lim_decisions o [] h) * SCALE
     <= o_burst o * SCALE + o_limit o * (t1 - t0) + (o_limit o - 1).
 Proof.
   intros R B S G T.
-  rewrite admitted_kadm by apply nodup_nil. cbn [lookup].
+  rewrite admitted_kadm by apply nodup_nil. cbn [lim_lookup].
   destruct h as [|e h].
   - cbn. assert (0 <= o_limit o * (t1 - t0)) by (apply Z.mul_nonneg_nonneg; lia). unfold SCALE. lia.
   - apply (kadm_bound o k R B t0 t1 (e :: h) None (ev_time e)); auto.
@@ -453,16 +453,16 @@ Proof.
 Qed.
 
 Lemma bound_nogc o k t0 t1 h :
-  0 < o_limit o -> 0 <= o_burst o -> sorted h = true -> has_gc h = false -> t0 <= t1 ->
-  admitted o k t0 t1 h (decisions o [] h) * SCALE
+  0 < o_limit o -> 0 <= o_burst o -> lim_sorted h = true -> has_gc h = false -> t0 <= t1 ->
+  lim_admitted o k t0 t1 h (lim_decisions o [] h) * SCALE
     <= o_burst o * SCALE + o_limit o * (t1 - t0) + (o_limit o - 1).
 Proof.
   intros R B S G T. apply bound_general; auto. rewrite G. discriminate.
 Qed.
 
 Lemma bound_gc o k t0 t1 h :
-  0 < o_limit o -> 0 <= o_burst o -> sorted h = true -> o_burst o <= 60 * o_limit o -> t0 <= t1 ->
-  admitted o k t0 t1 h (decisions o [] h) * SCALE
+  0 < o_limit o -> 0 <= o_burst o -> lim_sorted h = true -> o_burst o <= 60 * o_limit o -> t0 <= t1 ->
+  lim_admitted o k t0 t1 h (lim_decisions o [] h) * SCALE
     <= o_burst o * SCALE + o_limit o * (t1 - t0) + (o_limit o - 1).
 Proof.
   intros R B S G T. apply bound_general; auto.
@@ -504,9 +504,9 @@ Proof.
 Qed.
 
 (* a v4-mapped IPv6 address ::ffff:a.b.c.d is charged to the bucket of a.b.c.d *)
-Lemma mask_mapped o x : (x < two32)%N -> mask o (A6 (65535 * two32 + x)) = mask o (A4 x).
+Lemma mask_mapped o x : (x < two32)%N -> mask_addr o (A6 (65535 * two32 + x)) = mask_addr o (A4 x).
 Proof.
-  intros H. unfold mask, unmap.
+  intros H. unfold mask_addr, unmap.
   assert (((65535 * two32 + x) / two32 =? 65535)%N = true) as ->.
   { apply N.eqb_eq. unfold two32 in *. lia. }
   assert (((65535 * two32 + x) mod two32)%N = x) as ->.
@@ -514,13 +514,13 @@ Proof.
   reflexivity.
 Qed.
 
-Lemma mask_v4_24 o x : o_v4 o = 24 -> mask o (A4 x) = A4 (x / 256 * 256)%N.
-Proof. intros H. unfold mask, unmap, prefix_addr4. rewrite H. reflexivity. Qed.
+Lemma mask_v4_24 o x : o_v4 o = 24 -> mask_addr o (A4 x) = A4 (x / 256 * 256)%N.
+Proof. intros H. unfold mask_addr, unmap, prefix_addr4. rewrite H. reflexivity. Qed.
 
 Lemma mask_v6_48 o x : o_v6 o = 48 -> (x / two32 <> 65535)%N ->
-  mask o (A6 x) = A6 (x / 2 ^ 80 * 2 ^ 80)%N.
+  mask_addr o (A6 x) = A6 (x / 2 ^ 80 * 2 ^ 80)%N.
 Proof.
-  intros H M. unfold mask, unmap, prefix_addr6.
+  intros H M. unfold mask_addr, unmap, prefix_addr6.
   assert ((x / two32 =? 65535)%N = false) as -> by (apply N.eqb_neq; exact M).
   rewrite H. reflexivity.
 Qed.
@@ -554,8 +554,8 @@ Proof. intros Q H. unfold admit_query. rewrite Q, H. reflexivity. Qed.
 (* without a global limit the admission decision is exactly the client limiter's decision for that address *)
 Lemma rl_allow_client o t now a n : a <> ANone ->
   rl_allow (mkRl None (Some (o, t))) now a n =
-  (mkRl None (Some (o, fst (step o t (EvAllow now a n)))),
-   match snd (step o t (EvAllow now a n)) with Some false => RlClient | _ => RlOk end).
+  (mkRl None (Some (o, fst (lim_step o t (EvAllow now a n)))),
+   match snd (lim_step o t (EvAllow now a n)) with Some false => RlClient | _ => RlOk end).
 Proof. intros H. destruct a; [reflexivity|reflexivity|contradiction]. Qed.
 
 (* ------------------------------------------------------------------ witnesses *)
@@ -565,23 +565,23 @@ Proof. intros H. destruct a; [reflexivity|reflexivity|contradiction]. Qed.
 Definition k3_opts : opts := mkOpts 1 1000 24 48.
 Definition k3_client : addr := A4 3232235777%N.                       (* 192.168.1.1 *)
 Definition k3_t : Z := 60 * SCALE + 1.
-Definition k3_history : list ev :=
+Definition k3_history : list lev :=
   [EvAllow 0 k3_client 1000; EvGc k3_t; EvAllow k3_t k3_client 1000].
-Definition k3_key : addr := mask k3_opts k3_client.
+Definition k3_key : addr := mask_addr k3_opts k3_client.
 
 Lemma k3_witness :
-  sorted k3_history = true /\
-  decisions k3_opts [] k3_history = [Some true; None; Some true] /\
+  lim_sorted k3_history = true /\
+  lim_decisions k3_opts [] k3_history = [Some true; None; Some true] /\
   bound_ok k3_opts k3_key 0 k3_t k3_history = false /\
-  decisions k3_opts [] [EvAllow 0 k3_client 1000; EvAllow k3_t k3_client 1000] = [Some true; Some false].
+  lim_decisions k3_opts [] [EvAllow 0 k3_client 1000; EvAllow k3_t k3_client 1000] = [Some true; Some false].
 Proof. vm_compute. auto. Qed.
 
 (* the one-nanosecond slack of the bound is attained: rate 3/s, burst 1; after 333 333 333 ns the bucket
    holds 0.999999999 token and x/time/rate admits (the wait would be 1/3 ns, truncated to 0) *)
 Definition slack_opts : opts := mkOpts 3 1 24 48.
-Definition slack_history : list ev := [EvAllow 0 k3_client 1; EvAllow 333333333 k3_client 1].
+Definition slack_history : list lev := [EvAllow 0 k3_client 1; EvAllow 333333333 k3_client 1].
 Lemma slack_witness :
-  decisions slack_opts [] slack_history = [Some true; Some true] /\
-  admitted slack_opts (mask slack_opts k3_client) 0 333333333 slack_history (decisions slack_opts [] slack_history) * SCALE
+  lim_decisions slack_opts [] slack_history = [Some true; Some true] /\
+  lim_admitted slack_opts (mask_addr slack_opts k3_client) 0 333333333 slack_history (lim_decisions slack_opts [] slack_history) * SCALE
     = o_burst slack_opts * SCALE + o_limit slack_opts * (333333333 - 0) + 1.
 Proof. vm_compute. auto. Qed.
